@@ -70,4 +70,11 @@ theorem C08_batch_size_constant (m : Model) (P : Params) (V : List (Tensor Ext))
     (statesAt m P V init draws t).length = init.length :=
   statesAt_length m P V init draws t
 
+/-- **the empty batch**: simulating no agents gives, in every period, no records (what finding K23 says the implementation
+should return instead of raising) -/
+theorem C08_empty_batch (m : Model) (P : Params) (V : List (Tensor Ext)) (draws : Draws) (t : Nat) (ht : t < m.nPeriods) :
+    (simulate m P V [] draws true).getD t [] = [] := by
+  have := simulate_period_length m P V [] draws t ht
+  simpa using this
+
 end Lcm
